@@ -163,8 +163,25 @@ class _Port:
 
         c.set_receive_callback(cb)
         self.steps = []
+        self.conn_starts = [0]
         self.dead = False
         return self
+
+    async def reopen(self):
+        """the link is opened again (what connect() does after a fault): through the client's own _connect_impl"""
+        import serial_asyncio
+        self.rd = rd = _Reader()
+
+        async def fake_open(*a, **k):
+            return rd, _Writer()
+
+        saved = serial_asyncio.open_serial_connection
+        serial_asyncio.open_serial_connection = fake_open
+        try:
+            await self.c._connect_impl()
+        finally:
+            serial_asyncio.open_serial_connection = saved
+        self.conn_starts.append(len(self.steps))
 
     async def feed(self, ch):
         """one scripted read: one _receive_impl call (more if the code reads less than the chunk)"""
@@ -271,6 +288,21 @@ def _ports_oracle(ctx, rng, only=None):
                      ports=[[[[t, b.hex()] for t, b in segs], [c.hex() for c in reads]] for segs, reads in sess])
             return w
     return None
+
+
+async def _run_reconnect(conns):
+    """one client, several connections one after the other; returns the steps of each connection"""
+    p = await _Port().open()
+    try:
+        for k, chunks in enumerate(conns):
+            if k:
+                await p.reopen()
+            for ch in chunks:
+                await p.feed(ch)
+    finally:
+        await p.shut()
+    b = p.conn_starts + [len(p.steps)]
+    return [p.steps[b[i]:b[i + 1]] for i in range(len(b) - 1)]
 
 
 def _run_sessions(sessions):
@@ -622,6 +654,32 @@ def correspond(ctx):
         else:
             ctx.notes.append("the disagreeing sessions do not all agree with the pinned loop either (%d of %d do not)"
                              % (len(r0["failing"]), len(sub)))
+    reports.append(r)
+
+    # --- one client over several connections: each starts from an empty buffer (the first ones end inside a packet)
+    rc_cases, rc_raw = [], []
+    for _ in range(ctx.n(40, 400)):
+        conns = []
+        for _ in range(rng.choice((2, 2, 3))):
+            segs = _gen_segments(rng, rng.randint(1, 4), noise_p=rng.choice([0.0, 0.4]))
+            stream = _stream(segs)
+            if rng.random() < 0.8 and len(stream) > 25:
+                stream = stream[:len(stream) - rng.randint(1, 19)]        # the link breaks inside a packet
+            conns.append(rng.choice(_segmentations(rng, stream, 2)))
+        rc_raw.append(conns)
+
+    async def go_rc():
+        return [await _run_reconnect(c) for c in rc_raw]
+    rc_runs = asyncio.run(go_rc())
+    rc_cases = [clist(_c_session(steps) for steps in run) for run in rc_runs]
+    r = run_cases("C20", "reconnect", IMPORTS, "list (list (Z * Z) * list pobs)", "chk_reconnect", rc_cases,
+                  shard=max(1, -(-len(rc_cases) // 4)))
+    r.update(name="one client over several connections (_connect_impl between them) vs serial_step from an empty buffer each",
+             distinct_nontrivial=distinct_count([tuple(tuple(c) for c in conns) for conns in rc_raw]),
+             failing_cases=[{"connections": [[c.hex() for c in conn] for conn in rc_raw[k]]} for k in r["failing"][:20]],
+             samples=[{"connections": [[c.hex() for c in conn][:6] for conn in rc_raw[0]]}],
+             distribution={"sessions": len(rc_raw), "connections": sum(len(c) for c in rc_raw),
+                           "pending_at_link_loss": sum(1 for run in rc_runs for steps in run[:-1] if steps and steps[-1]["pending"])})
     reports.append(r)
 
     # --- the oracle of the search demands exactly what C20_stream's `must_cut` demands (so the search asks for
